@@ -71,8 +71,13 @@ def expand_minimal_spaces(
     while len(stack) > 0:
         (node, successors) = stack.pop()
         if successors is None:
-            # Only allow successor computation if size limit hasn't been exceeded.
-            if (size_limit is not None) and (len(sd) >= size_limit):
+            # Only allow successor computation if size limit hasn't been exceeded
+            # (successors of an expanded node are already known, so they are free).
+            if (
+                (size_limit is not None)
+                and (len(sd) >= size_limit)
+                and not sd.node_data(node)["expanded"]
+            ):
                 # Size limit reached.
                 return False
 
